@@ -8,6 +8,7 @@ package main
 // All terms are interned, so structural equality is pointer equality.
 
 import (
+	"sync"
 	"fmt"
 	"sort"
 	"strconv"
@@ -628,6 +629,26 @@ type smtCtx struct {
 	order   []string
 	strLits map[string]int
 	lets    map[*Term]string
+	refAx   map[string]string // axioms for reference-valued slots of the initial heap (see quantRefSlots)
+}
+
+// quantRefSlots: slot functions of the initial heap (H0.*) that hold references and were read under a
+// quantifier of a contract. Heap well-formedness (every reference stored in the heap the function was
+// entered with denotes an object that existed then) is assumed per load for ground terms
+// (allocatedAssume); a load whose address contains a bound variable gets the same fact as an axiom
+// `forall x. H0.f(x) <= ALLOC0` with the application as its pattern.
+var (
+	quantRefSlots   = map[string]bool{}
+	quantRefSlotsMu sync.Mutex
+)
+
+func noteQuantRefSlot(t *Term) {
+	if t == nil || t.K != KApp || !strings.HasPrefix(t.Name, "H0.") {
+		return
+	}
+	quantRefSlotsMu.Lock()
+	quantRefSlots[t.Name] = true
+	quantRefSlotsMu.Unlock()
 }
 
 func smtName(n string) string {
@@ -697,6 +718,23 @@ func (c *smtCtx) emit(t *Term) string {
 			args = append(args, c.emit(a))
 		}
 		c.declare(n, fmt.Sprintf("(declare-fun %s (%s) %s)", n, strings.Join(sorts, " "), t.S))
+		if len(args) > 0 && t.S == SInt {
+			quantRefSlotsMu.Lock()
+			isRef := quantRefSlots[t.Name]
+			quantRefSlotsMu.Unlock()
+			if isRef && c.refAx[n] == "" {
+				var bvs, xs []string
+				for i, so := range sorts {
+					bvs = append(bvs, fmt.Sprintf("(wfx!%d %s)", i, so))
+					xs = append(xs, fmt.Sprintf("wfx!%d", i))
+				}
+				app := "(" + n + " " + strings.Join(xs, " ") + ")"
+				if c.refAx == nil {
+					c.refAx = map[string]string{}
+				}
+				c.refAx[n] = "(assert (forall (" + strings.Join(bvs, " ") + ") (! (<= " + app + " ALLOC0) :pattern (" + app + "))))"
+			}
+		}
 		if len(args) == 0 {
 			return n
 		}
@@ -791,6 +829,15 @@ func smtQuery(assumptions []*Term, goal *Term, marks []callMark) string {
 	}
 	for _, e := range extra {
 		sb.WriteString(e)
+		sb.WriteString("\n")
+	}
+	var axn []string
+	for n := range c.refAx {
+		axn = append(axn, n)
+	}
+	sort.Strings(axn)
+	for _, n := range axn {
+		sb.WriteString(c.refAx[n])
 		sb.WriteString("\n")
 	}
 	for _, b := range body {
